@@ -44,4 +44,10 @@ def jobs(tier):
                      checks="assert", unwind=n + 3, unwindset=["strcmp.0:48", "strlen.0:8", "memcpy.0:40", "memmove.0:40", "memmove.1:40", f"find_value.0:{2 * n + 3}"], timeout=600, extra=["--object-bits", "11"],
                      encodes=["find_value", "_dbus_string_append_byte"], stubs=["_dbus_string_init = pool buffers (R19)"],
                      bounds=f"every value text of exactly {n} non-NUL bytes (full alphabet)", shape=f"value text of {n} bytes"))
+    # C07.c: pair count of the tokenizer (found F19: more than 16 pairs were silently dropped)
+    for t, tr in ((1, 0), (16, 0), (16, 1), (17, 0), (40, 0), (80, 1), (81, 0)):
+        J.append(Job(name=f"c.tokens.T{t}" + (".trail" if tr else ""), group="C07.c", harness="harness/C07_tokens.c", defines={"T": t, "TRAIL": tr}, real=["dbus/dbus-list.c"], env=["assert_stubs.c", "memfuncs.c", "pool_lock.c", "msg_model.c"],
+                     checks="assert", unwind=4 * t + 8, unwindset=["strcmp.0:48"], timeout=600, extra=["--object-bits", "11", "--max-field-sensitivity-array-size", "400"],
+                     encodes=["tokenize_rule", "find_key", "find_value"], stubs=["_dbus_string_init = pool buffers (R19); stolen token strings copied to a static pool"],
+                     bounds=f"concrete rule text of {t} one-letter key=value pairs" + (" followed by a blank" if tr else ""), shape=f"tokenizer, {t} pairs"))
     return J
